@@ -456,6 +456,10 @@ def check_C07(tr):
                     out.append(Finding("C07", "a release by a side that holds no claim changes nothing", st.i, {"nameplate": n}))
             elif st.internal():
                 out.append(Finding("C07", "release is always answered released", st.i, {"events": st.raw_events}))
+            elif e in VALIDATION and expected_rejection(st, op) is None:
+                # by the history this release is in order (it follows this connection's claim, or names a
+                # nameplate), yet it was refused
+                out.append(Finding("C07", "release is always answered released", st.i, {"error": e, "events": st.raw_events}))
         if op["op"] == "recv" and op["msg"].get("type") == "claim" and actor and st.err(op["c"]) == "reclaimed":
             if st.pre.chan_rows() != st.post.chan_rows():
                 out.append(Finding("C07", "reclaimed changes nothing", st.i, {}))
